@@ -265,6 +265,16 @@ def coq_state(c, e):
             f"{lib.coq_nat(e['ndata'])} {lib.coq_nat(e['nsteps'])})")
 
 
+def all_finite(o):
+    if isinstance(o, dict):
+        return all(all_finite(v) for v in o.values())
+    if isinstance(o, (list, tuple)):
+        return all(all_finite(v) for v in o)
+    if isinstance(o, float):
+        return math.isfinite(o)
+    return True
+
+
 def coq_init(c):
     return f"init_run {coq_config(c)} {lib.qclit(c['grid'][0])} {coq_u0(c)} {lib.coq_bool(bool(c.get('cinit')))}"
 
